@@ -57,6 +57,8 @@ PROFILE_C20 = {
     "gc": [[1800 * S, 300 * S], [2 * S, 1 * S]],
     "dlt": [600 * S], "shards": [16, 1],
     "bad_key_pct": 20, "bad_ck_pct": 22,
+    # POST /session carrying a cookie (another live session's, an ended one's, garbage, the slot's own): a fresh session must come back
+    "create_ck_pct": 30,
 }
 
 
@@ -75,6 +77,7 @@ TAG_TEXT = {
     "C20:table-vs-live-sessions": "the gateway's session table differs from the set of sessions that are live by the gap rule",
     "C20:holds-survive-session-end": "every session has ended but the lock server still lists holds",
     "C20:gateway-crash": "a handler panicked or never returned",
+    "C20:create-reused-session": "POST /session was answered 201 without creating a session (it handed back an existing cookie / made no new server session)",
 }
 
 
@@ -92,6 +95,9 @@ def c20_fails(batch):
             f.append((max(0, len(case["blocks"]) - 1), "C20:gateway-crash", TAG_TEXT["C20:gateway-crash"] + ": " + ptxt))
         if case is not None:
             f += holds_released(case)
+            for bi, blk in enumerate(case["blocks"]):
+                if blk["e"][0] == "create":
+                    f += [(i, "C20:create-reused-session", t) for i, _, t in lib.create_not_fresh(case, bi)]
         if f:
             out[hid] = sorted(f)
     return out
@@ -403,6 +409,8 @@ def run(ctx):
         "the race stage (T2-races) is driven without yield points inside rest.go: goroutines are released at chosen virtual instants (exact ties) or wall-clock instants, and a request can be held inside "
         "the server call; the schedules actually taken are the Go scheduler's choice among those, so the race stage samples schedules — the all-schedules claim is the Coq theorem's",
         "POST /session draws a fresh cookie (pool_ok: at most one creator per cookie); a duplicate uuid would overwrite a live session's entry",
+        "the c20 oracle and Mrest's create have no request cookie (POST /session always makes a fresh session): a create that carries a cookie is judged and replayed as a plain create; that it "
+        "returned a cookie no earlier create returned and made a new server session is checked on the real trace (C20:create-reused-session)",
         "window runs: the harness preempts a handler goroutine only at the inner yield points (before every mutex acquisition and timer-manager call found by text in net/rest/rest.go, inside the "
         "server call, at the entry of HandleConn(ConnEnd)) - between two synchronisation operations a data-race-free handler cannot be observed by another goroutine; at most 2 preemptions per execution, "
         "at most 3 handler threads + idle expiry per scenario; the search is exhaustive within that bound where the evidence says so, a capped sample otherwise; which goroutine owns which mutex is read "
@@ -586,7 +594,7 @@ def run(ctx):
                 "requests_deletes_advances_judged_by_the_gap_rule_oracle": n_req, "histories_failing_the_oracle": n_fail,
                 "model_mismatches_in_projection": n_mis, "histories_with_timer_tie": n_tie,
                 "model_mismatches_ignored_because_of_a_timer_tie": sum(1 for bb in batches for r in bb["results"].values() if r.get("tie_ignored")),
-                "crashes_or_hangs": len(crashes),
+                "crashes_or_hangs": len(crashes), "session_creates_carrying_a_cookie": lib.create_classes(batches),
                 "projection": "C20 (statuses, ConnEnd, session table; of the lock server: flags, listing, file, lock table)",
                 "oracle": "extracted from Coq: c20_step (gap rule, 401, ConnEnd once and prompt, table = live sessions), c20_inert_failures", "generator_distribution": stats})
     tie2.update({"scenarios_executed_on_real_handler": n_races, "fixed": len([1 for r in rr["results"] if "rand" not in r.get("id", "")]),
